@@ -123,6 +123,30 @@ def Period.updateRegion (p : Period) (u : UpdIn) (b e : Int) (clear : Bool) : Pe
 def Period.effBegin (p : Period) (b : Int) (clear : Bool) : Int :=
   if clear then b else if b < numOf p.ve then numOf p.ve else b
 
+/-! ### Activation and the 300 s update timer -/
+
+/-- `TimePeriod::PurgeSegments(end)` (timeperiod.cpp:174-202): nothing happens without a window or
+    when the window begins after `c`; otherwise `valid_begin` MOVES FORWARD to `c` (the one place
+    where the window shrinks) and the segments that end before `c` are dropped (a segment that
+    straddles `c` is kept whole). -/
+def Period.purge (p : Period) (c : Int) : Period :=
+  match p.vb with
+  | none => p                                                          -- :182
+  | some vb =>
+    if c < vb then p                                                   -- :182
+    else { p with vb := some c, segs := p.segs.filter (fun s => decide (s.2 ≥ c)) }   -- :185,196-199
+
+/-- `TimePeriod::Start` (timeperiod.cpp:33-35): pre-fill the next 24 hours, clearing. -/
+def Period.start (p : Period) (u : UpdIn) (now : Int) : Period :=
+  p.updateRegion u now (now + 86400) true
+
+/-- Body of the loop of `TimePeriod::UpdateTimerHandler` for one active period
+    (timeperiod.cpp:332-341): purge what ended more than an hour ago, then extend the window,
+    non-clearing, from the current `valid_end` (Empty reads as 0) to `now + 24 h`. -/
+def Period.tick (p : Period) (u : UpdIn) (now : Int) : Period :=
+  let q := p.purge (now - 3600)                                        -- :336
+  q.updateRegion u (numOf q.ve) (now + 86400) false                -- :338,341
+
 /-! ### Canonical form of a segment list (part of the oracle: the driver compares denotations)
 
   The property speaks about the covered set, not about how `AddSegment`/`RemoveSegment` happen to
